@@ -1,5 +1,7 @@
 #!/bin/bash
-# evaluate every seeded/<ID>-<X> that has no eval.json yet, $1 at a time (default 3)
+# evaluate every seeded/<ID>-<X> that has no eval.json yet, $1 at a time (default 3); one queue at a time (flock)
 P=${1:-3}
 cd /verif
+exec 9>/tmp/eval_queue.lock
+flock 9
 ls -d seeded/C*-* 2>/dev/null | while read d; do [ -f $d/eval.json ] || echo $d; done | xargs -P $P -I{} sh -c 'p=$(basename {} | cut -c1-3); tools/eval_seeded.sh {} $p quick >> /tmp/seed_eval.log 2>&1'
